@@ -13,7 +13,7 @@ use crate::simhttp::RecvLog;
 use humphrey::http::cors::Cors;
 use humphrey::http::method::Method;
 use humphrey::http::{Request, Response, StatusCode};
-use humphrey::App;
+use humphrey::{App, SubApp};
 use humsim::net::Seg;
 use humsim::rng::Rng;
 use humsim::tokio_net::{self, TcpListener, TcpStream};
@@ -976,6 +976,194 @@ impl Prop for C20T {
         }
         rr.trace_hash = fnv64(format!("{}|{}|{:?}", shape, vns, ret).as_bytes());
         rr.sample = Some(json!({"runtime": "tokio", "config": cfg, "signal_ms": scn.signal_ms, "returned_after_ms": ret.map(|r| r.0.saturating_sub(t_sig) / 1_000_000), "rebind": rebind, "connections": scn.conns.iter().enumerate().map(|(i, c)| format!("at {} ms {} -> {} bytes", c.at_ms, c.state, outs[i].0.len())).collect::<Vec<_>>()}));
+        rr
+    }
+}
+
+// ------------------------------------------------------------------ C04 on tokio
+
+pub struct C04T;
+
+use crate::props::c04;
+
+fn sub_app_tk(tag: String, h: &c04::HostCfg) -> SubApp<()> {
+    let mut s: SubApp<()> = SubApp::new();
+    for (ri, p) in h.routes.iter().enumerate() {
+        let id = format!("{}r{}", tag, ri);
+        s = s.with_route(p, move |_r: Request, _s: Arc<()>| {
+            let id = id.clone();
+            async move { Response::new(StatusCode::OK, id) }
+        });
+    }
+    for (ri, p) in h.ws_routes.iter().enumerate() {
+        let id = format!("{}w{}", tag, ri);
+        s = s.with_websocket_route(p, move |_r: Request, mut stream: humphrey::stream::Stream, _s: Arc<()>| {
+            let id = id.clone();
+            async move {
+                let _ = stream.write_all(format!("WS-HANDLER {}", id).as_bytes()).await;
+            }
+        });
+    }
+    s
+}
+
+async fn run_client_c04(reqs: Vec<c04::Rq>, addr: SocketAddr, t0: tokio::time::Instant) -> Vec<Option<String>> {
+    let mut out = Vec::new();
+    let mut s = None;
+    for _ in 0..200 {
+        match TcpStream::connect(addr).await {
+            Ok(x) => {
+                s = Some(x);
+                break;
+            }
+            Err(_) => tokio::time::sleep(Duration::from_millis(1)).await,
+        }
+    }
+    let s = match s {
+        Some(s) => s,
+        None => return out,
+    };
+    let (mut rd, mut wr) = tokio::io::split(s);
+    let mut log = RecvLog::new();
+    for (i, r) in reqs.iter().enumerate() {
+        let target = if r.query.is_empty() { r.path.clone() } else { format!("{}?{}", r.path, r.query) };
+        let mut headers = Vec::new();
+        if let Some(h) = &r.host {
+            headers.push(("Host".to_string(), h.clone()));
+        }
+        headers.push(("Connection".into(), "keep-alive".into()));
+        if r.ws {
+            headers.push(("Upgrade".into(), "websocket".into()));
+        }
+        let bytes = ReqModel { method: "GET".into(), target, version: "HTTP/1.1".into(), headers, body: None }.render();
+        if wr.write_all(&bytes).await.is_err() {
+            break;
+        }
+        if r.ws {
+            let before = log.bytes.len();
+            while read_more(&mut rd, &mut log, t0, Duration::from_secs(10)).await {}
+            let mut raw = &log.bytes[before..];
+            if i > 0 && raw.starts_with(b"\r\n") {
+                raw = &raw[2..];
+            } else if i > 0 && raw.starts_with(b"\n") && log.bytes[..before].ends_with(b"\r") {
+                raw = &raw[1..];
+            }
+            out.push(Some(String::from_utf8_lossy(raw).to_string()));
+            break;
+        }
+        let n = read_n_responses(&mut rd, &mut log, i + 1, t0, Duration::from_secs(20)).await;
+        let (rs, _) = parse_stream(&log.bytes, log.ended());
+        match rs.get(i) {
+            Some(resp) if n > i => out.push(Some(format!("{} {}", resp.status, String::from_utf8_lossy(body_without_tolerated_crlf(resp))))),
+            _ => {
+                out.push(None);
+                break;
+            }
+        }
+    }
+    out
+}
+
+impl Prop for C04T {
+    fn id(&self) -> &'static str {
+        "C04T"
+    }
+    fn level(&self) -> &'static str {
+        "exploration"
+    }
+    fn runs(&self, tier: Tier) -> u64 {
+        match tier {
+            Tier::Quick => 20_000,
+            Tier::Thorough => 1_000_000,
+        }
+    }
+    fn rule(&self) -> &'static str {
+        "Tokio twin of C04: the same generated applications (the default application's routes are registered on the App itself, as this runtime has no default sub-app setter), request sequences and reference router, against `App::run().await` on a paused-clock current_thread runtime over humsim::tokio_net."
+    }
+    fn assumptions(&self) -> Vec<String> {
+        vec!["same as C04; the WebSocket handlers write their identity on the async Stream and return".into()]
+    }
+    fn expected_counters(&self) -> Vec<&'static str> {
+        vec!["c04.requests", "c04.ws_requests", "c04.answered_by_host_app", "c04.fell_through_to_default", "c04.no_route_404", "c04.shadowed_route_requests", "c04.second_or_later_request_on_connection"]
+    }
+    fn real_vs_stub(&self) -> (Vec<&'static str>, Vec<&'static str>) {
+        (vec!["humphrey (tokio feature): App::run, client_handler, get_handler, call_websocket_handler, SubApp, krauss::wildcard_match"], vec!["tokio::net (humsim::tokio_net), tokio clock (paused)", "clients are harness reference implementations"])
+    }
+    fn generate(&self, seed: u64, idx: u64, tier: Tier) -> Value {
+        serde_json::to_value(c04::gen_scn(run_seed(seed, "C04T", idx), tier)).unwrap()
+    }
+    fn execute(&self, scenario: &Value) -> RunResult {
+        let mut rr = RunResult { evals: 1, ..Default::default() };
+        let mut scn: c04::Scn = match serde_json::from_value(scenario.clone()) {
+            Ok(s) => s,
+            Err(e) => {
+                rr.harness_error = Some(format!("bad scenario: {}", e));
+                return rr;
+            }
+        };
+        c04::normalise(&mut scn);
+        install_hook();
+        PANICS.lock().unwrap().clear();
+        let addr: SocketAddr = "127.0.0.1:8084".parse().unwrap();
+        let scn2 = scn.clone();
+        let result = run_rt(scn.sim.seed, 7200, async move {
+            tokio_net::reset(net_cfg(&scn2.sim));
+            let t0 = tokio::time::Instant::now();
+            let mut app: App<()> = App::new_with_config(());
+            // the default application: routes registered on the App itself
+            for (ri, p) in scn2.default.routes.iter().enumerate() {
+                let id = format!("dr{}", ri);
+                app = app.with_route(p, move |_r: Request, _s: Arc<()>| {
+                    let id = id.clone();
+                    async move { Response::new(StatusCode::OK, id) }
+                });
+            }
+            for (ri, p) in scn2.default.ws_routes.iter().enumerate() {
+                let id = format!("dw{}", ri);
+                app = app.with_websocket_route(p, move |_r: Request, mut stream: humphrey::stream::Stream, _s: Arc<()>| {
+                    let id = id.clone();
+                    async move {
+                        let _ = stream.write_all(format!("WS-HANDLER {}", id).as_bytes()).await;
+                    }
+                });
+            }
+            for (hi, h) in scn2.hosts.iter().enumerate() {
+                app = app.with_host(&h.pattern, sub_app_tk(format!("h{}", hi), h));
+            }
+            tokio::spawn(async move {
+                let _ = app.run(addr).await;
+            });
+            let mut hs = Vec::new();
+            for reqs in scn2.clients.iter() {
+                hs.push(tokio::spawn(run_client_c04(reqs.clone(), addr, t0)));
+            }
+            let mut outs = Vec::new();
+            for h in hs {
+                outs.push(h.await.unwrap_or_default());
+            }
+            (outs, virt_ns(t0))
+        });
+        for (k, v) in tokio_net::finish() {
+            rr.count(&k, v);
+        }
+        let (outs, vns) = match result {
+            Some(x) => x,
+            None => {
+                rr.violate("C04/R0", "tokio:run-did-not-complete", "nothing was runnable and no timer was pending for 7200 virtual seconds: clients could not finish".to_string());
+                return rr;
+            }
+        };
+        rr.virtual_ns = vns;
+        if let Some(p) = PANICS.lock().unwrap().first() {
+            rr.violate("C04/R0", "tokio:server-panicked", p.clone());
+        }
+        c04::judge(&mut rr, &scn, &outs, true);
+        for v in rr.violations.iter_mut() {
+            if !v.sig.starts_with("tokio:") {
+                v.sig = format!("tokio:{}", v.sig);
+            }
+        }
+        rr.trace_hash = fnv64(format!("{}|{:?}", vns, outs).as_bytes());
         rr
     }
 }
